@@ -234,11 +234,11 @@ def run(ctx):
         # single-crash schedules duplicate the index-exhaustive single crashes below: replay a seeded half
         rnd.shuffle(tlc_runs)
         tlc_runs = tlc_runs[:40]
-    elif len(tlc_runs) > 2000:
+    elif len(tlc_runs) > 1100:
         k1 = [r for r in tlc_runs if len(r["crashes"]) == 1]
         k2 = [r for r in tlc_runs if len(r["crashes"]) == 2]
         rnd.shuffle(k2)
-        tlc_runs = k1 + k2[:2000 - len(k1)]
+        tlc_runs = k1 + k2[:1100 - len(k1)]
 
     # ---- 3. replay on the real node -------------------------------------------------------------
     binp = ctx.go_build_test("consensus", HARNESS)
@@ -261,12 +261,12 @@ def run(ctx):
             pairs.append((first, j))
     rnd.shuffle(pairs)
     n_pairs_total = len(pairs)
-    pairs = pairs[:(40 if quick else 1500)]
+    pairs = pairs[:(40 if quick else 800)]
     # and a third one during the second recovery (sampled)
     k2_runs = [{"id": "k2:%d,%d" % p, "crashes": [{"idx": p[0], "label": "", "occ": 0},
                                                     {"idx": p[1], "label": "", "occ": 0}]} for p in pairs]
     triples = []
-    for p in pairs[:(6 if quick else 250)]:
+    for p in pairs[:(6 if quick else 150)]:
         third = 1 + rnd.randrange(12)
         triples.append({"id": "k3:%d,%d,%d" % (p[0], p[1], third),
                         "crashes": [{"idx": x, "label": "", "occ": 0} for x in (p[0], p[1], third)]})
@@ -363,9 +363,10 @@ def run(ctx):
                 hs_cases.add((r["h"],))
     recov = {}
     for rr in all_runs:
-        # (store - state, app - state) at the moment of each crash = the ReplayBlocks case exercised
+        # the (store - state, app - state) cursors the Handshake of each (re)start was faced with
+        # = the ReplayBlocks case exercised
         for r in rr:
-            if r["ev"] == "Crash":
+            if r["ev"] == "Op" and r["k"] == "Info":
                 p = r["post"]
                 key = "store-state=%d,app-state=%d,app_h%s0" % (p["bs_h"] - p["ss_h"], p["app_h"] - p["ss_h"],
                                                                   "=" if p["app_h"] == 0 else ">")
@@ -407,7 +408,7 @@ def run(ctx):
         "pipeline_events": len(rows_p),
         "crash_points_in_crash_free_run": n0,
         "distinct_crash_signatures": len(crash_sigs),
-        "crash_states_by_replayblocks_case": recov,
+        "handshakes_by_replayblocks_case": recov,
         "tlc_schedules_not_realised_by_the_node": unrealised[:10],
         "tlc_schedules_not_realised_count": len(unrealised),
         "app_rollback_runs": len(rb_runs) + len(rb_tlc_runs),
